@@ -276,8 +276,51 @@ impl<'r> Grammar<'r> {
         }
     }
 
+    /// postfix chain after a designator: `F(x)(y)`, `A[i][j]`, `G(x)[i]`, `P^.f`, `A[i]^`
+    fn postfix_chain(&mut self, depth: u16, lvl: u32) {
+        let n = self.rng.range(1, 3);
+        for _ in 0..n {
+            match self.rng.below(5) {
+                0 => {
+                    self.t("(");
+                    if self.rng.chance(2, 3) {
+                        self.expr(depth, lvl + 2);
+                    }
+                    self.t(")");
+                }
+                1 => {
+                    self.t("[");
+                    self.expr(depth, lvl + 2);
+                    self.t("]");
+                }
+                2 => {
+                    self.t(".");
+                    let j = self.ident();
+                    self.t(&j);
+                }
+                3 => self.t("^"),
+                _ => {
+                    self.t("[");
+                    self.primary(depth, lvl + 3);
+                    self.t(",");
+                    self.primary(depth, lvl + 3);
+                    self.t("]");
+                }
+            }
+        }
+    }
+
     pub fn expr(&mut self, depth: u16, lvl: u32) {
+        let before = self.out.len();
         self.primary(depth, lvl);
+        // a designator (call, index, parenthesised expression, dereference, plain name) may continue with postfix parts
+        let last_ok = self.out.len() > before
+            && matches!(self.out[self.out.len() - 1].text.as_str(), ")" | "]" | "^")
+            && !matches!(self.out[before].text.as_str(), "[" | "-" | "@")
+            && !self.out[before].text.eq_ignore_ascii_case("not");
+        if last_ok && self.budget > 0 && lvl <= 3 && self.rng.chance(1, 4) {
+            self.postfix_chain(depth, lvl);
+        }
         let n = if self.budget <= 0 { 0 } else { self.rng.below(4) };
         for _ in 0..n {
             if self.rng.chance(2, 3) {
@@ -1003,6 +1046,31 @@ pub const SOUP: &[&str] = &[
     "{c}", "// l\n", "{$ifdef X}", "{$else}", "{$endif}", "{$R+}", "(*c*)", "{$if A}", "{$elseif B}", "{$ifend}",
     "'unterminated", "{ unterminated", "?", "\"",
 ];
+
+/// spacing-relevant alphabet: one representative per token class that `token_spacing.rs` distinguishes
+pub const PAIR_ALPHABET: &[&str] = &[
+    "a", "Foo", "begin", "end", "if", "then", "not", "and", "in", "is", "as", "div", "nil", "inherited", "class", "of", "array",
+    "procedure", "function", "read", "strict", "private", "1", "2.5", "$F", "'s'", "#9",
+    ";", ":", ":=", ",", ".", "..", "(", ")", "[", "]", "<", ">", "<=", ">=", "<>", "=", "+", "-", "*", "/", "^", "@", "&x",
+    "{c}", "(*c*)", "{$R+}", "{$ifdef X}", "{$endif}",
+];
+
+/// `pairs` family: a short statement-like context around three tokens of the alphabet with every kind of gap, so that each
+/// ordered pair of token classes meets each original gap (none, one space, several spaces, tab, line break + indentation)
+pub fn token_pairs(rng: &mut Rng) -> String {
+    let gaps = ["", " ", "   ", "\t", "\n", "\n      ", "  \n  "];
+    let mut s = String::new();
+    s.push_str(rng.pick_str(&["", "x := ", "begin\n  x := ", "Foo(", "const C = ", "type T = "]));
+    let n = rng.range(2, 5);
+    for i in 0..n {
+        if i > 0 {
+            s.push_str(rng.pick_str(&gaps));
+        }
+        s.push_str(rng.pick_str(PAIR_ALPHABET));
+    }
+    s.push_str(rng.pick_str(&["", ";", ";\nend;", " ;\n"]));
+    s
+}
 
 pub fn token_soup(rng: &mut Rng, max_len: usize) -> String {
     let n = rng.range(0, max_len);
